@@ -49,13 +49,17 @@ def _note(tag, *ints):
         ST.log.update(int(i & 0xFFFFFFFF).to_bytes(4, "big"))
 
 
-def begin(order_seed):
+def begin(order_seed, epoch=True):
     """(Re)seed the scheduler's PRNG.  Called at the start of every operation
     with that operation's own order_seed, so that dropping an operation during
-    minimisation does not shift the decisions of the others."""
+    minimisation does not shift the decisions of the others.  epoch=False
+    keeps the frozenset salt: objects that live across operations (C05) must
+    keep the iteration order of an unmodified frozenset."""
     ST.canonical = order_seed == 0
     ST.rng = random.Random(mix(order_seed, "order"))
-    ST.fs_salt = ST.rng.getrandbits(30)
+    salt = ST.rng.getrandbits(30)
+    if epoch:
+        ST.fs_salt = salt
     _note(b"B", order_seed & 0xFFFFFFFF)
 
 
